@@ -18,8 +18,8 @@ static const KSI_Policy *policyNo(int i) {
 static const char *kPolName[] = {"internal", "calendar", "key", "pubfile", "userpub", "general"};
 enum HashDev { HD_EQUAL, HD_BITFLIP, HD_OTHER_ALG_SAME_DIGEST, HD_OTHER_ALG, HD_RANDOM, HD_ABSENT };
 static const char *kDevName[] = {"equal", "bit-flip", "other-alg-same-digest", "other-alg", "random", "absent"};
-enum Api { API_VERIFIER, API_WITH_POLICY, API_WITH_POLICY_CTX, API_DATAHASH, API_DOCUMENT, API_COUNT };
-static const char *kApiName[] = {"SignatureVerifier_verify", "verifyWithPolicy", "verifyWithPolicy+context", "verifyDataHash", "verifyDocument"};
+enum Api { API_VERIFIER, API_WITH_POLICY, API_WITH_POLICY_CTX, API_DATAHASH, API_DOCUMENT, API_WITH_POLICY_CTX_PREFILLED, API_COUNT };
+static const char *kApiName[] = {"SignatureVerifier_verify", "verifyWithPolicy", "verifyWithPolicy+context", "verifyDataHash", "verifyDocument", "verifyWithPolicy+context-carrying-the-matching-hash"};
 
 struct Expect { bool mustBeOk; bool mustNotBeOk; int failCode; bool errorStatus; };
 
@@ -47,6 +47,9 @@ static void runOne(Case &c, const Sig &s, const Bytes &docBytes, int hd, unsigne
         res = KSI_SignatureVerifier_verify(policyNo(pol), &vc, &r); if (res == KSI_OK && r) { resultCode = r->finalResult.resultCode; errorCode = r->finalResult.errorCode; verdictOk = resultCode == KSI_VER_RES_OK; } KSI_PolicyVerificationResult_free(r); KSI_VerificationContext_clean(&vc); break; }
     case API_WITH_POLICY: res = KSI_Signature_verifyWithPolicy(sig, dh, level, policyNo(pol), nullptr); verdictOk = res == KSI_OK; break;
     case API_WITH_POLICY_CTX: { KSI_VerificationContext vc; KSI_VerificationContext_init(&vc, ctx); vc.extendingAllowed = 1; res = KSI_Signature_verifyWithPolicy(sig, dh, level, policyNo(pol), &vc); verdictOk = res == KSI_OK; KSI_VerificationContext_clean(&vc); break; }
+    case API_WITH_POLICY_CTX_PREFILLED: { // the context still carries the matching hash (e.g. from an earlier call); explicit arguments take precedence
+        KSI_VerificationContext vc; KSI_VerificationContext_init(&vc, ctx); KSI_DataHash *stale = nullptr; KSI_DataHash_fromImprint(ctx, want.data(), want.size(), &stale); vc.documentHash = stale; vc.docAggrLevel = 0;
+        res = KSI_Signature_verifyWithPolicy(sig, dh, level, policyNo(pol), &vc); verdictOk = res == KSI_OK; vc.documentHash = nullptr; KSI_VerificationContext_clean(&vc); KSI_DataHash_free(stale); break; }
     case API_DATAHASH: res = dh ? KSI_verifyDataHash(ctx, sig, dh) : KSI_INVALID_ARGUMENT; verdictOk = res == KSI_OK; break;
     default: res = KSI_Signature_verifyDocument(sig, ctx, docBytes.data(), docBytes.size()); verdictOk = res == KSI_OK; break;
     }
@@ -61,7 +64,7 @@ static void runOne(Case &c, const Sig &s, const Bytes &docBytes, int hd, unsigne
         c.cls(std::string("deviation:") + (levelInvalid ? "level>255" : levelTooLarge && deviations == 1 ? "level" : devDesc)); if (deviations > 1) c.cls("deviation:combined");
     } else {
         c.cls("no-deviation");
-        if (pol == 0 && api <= API_WITH_POLICY_CTX && !verdictOk) VF_FAIL(c, "C02:matching-input-refused", "internal policy refused the matching hash / admissible level: res=" + num(res) + " result=" + num(resultCode) + " (" + where + ")");
+        if (pol == 0 && (api <= API_WITH_POLICY_CTX || api == API_WITH_POLICY_CTX_PREFILLED) && !verdictOk) VF_FAIL(c, "C02:matching-input-refused", "internal policy refused the matching hash / admissible level: res=" + num(res) + " result=" + num(resultCode) + " (" + where + ")");
         stats().count(verdictOk ? "no-deviation:OK" : "no-deviation:not-OK(anchor unavailable)");
     }
     c.cls(std::string("api:") + kApiName[api]); c.cls(std::string("policy:") + kPolName[pol]);
